@@ -1,10 +1,10 @@
 # orchestrator configuration of the C10 check (loaded by tools/props.py)
-from stack import FULL_STACK, FULL_DEPS
+from stack import FULL_STACK, FULL_DEPS, QUIC_STACK, QUIC_DEPS
 
 SPEC = dict(
     pkg="./harness/c10",
-    instrument=FULL_STACK + ["./p2p/net/conngater"],
-    deps=FULL_DEPS,
+    instrument=FULL_STACK + QUIC_STACK + ["./p2p/net/conngater"],
+    deps=FULL_DEPS + QUIC_DEPS,
     level="exploration",
     level_text=("seeded search over histories of Block*/Unblock* calls on the real BasicConnectionGater (peer, address in 4- and "
                 "16-byte form, canonical IPv4/IPv6 subnets incl. the IPv4-mapped spelling), each optionally cut by a process stop "
@@ -13,20 +13,27 @@ SPEC = dict(
                 "simnet whose IP addresses sit on the first/last/just-outside addresses of the blocked subnets (IPv4, IPv6, "
                 "IPv4-mapped source spelling), G dialling through /ip4, /ip6, /ip6/::ffff:a.b.c.d, /dns4, /dns6, /dns forms "
                 "(fake resolver) and decoy addresses, or (stratum hooks-direct) with a sweep of every Intercept* hook over every "
-                "pool IP in every textual form after every call. Compared with the acknowledged rule set (what the return values "
+                "pool IP in every textual form after every call; stratum full-stack-quic: the same with every node on TCP AND real QUIC "
+                "(p2p/transport/quic + quicreuse + quic-go over simnet's UDP model), the dialler knowing QUIC only | both | TCP only "
+                "per dial, UDP loss <= 30 % / duplication / reordering in 2/5 of those runs (stopped before the final round). "
+                "Compared with the acknowledged rule set (what the return values "
                 "told the caller). Sampling, not proof."),
     level_note=("trusted: testing/synctest, simnet's TCP model, simdisk's durability model (a mutation that was applied is "
                 "durable; the stop falls right after it), go-datastore's MapDatastore/namespace/query code, go-multiaddr and "
                 "net.IPNet.Contains (used by the reference model for matching). Rules change only at quiescent instants between "
-                "dial rounds. NOT simulated: the QUIC / WebTransport / WebRTC listeners' own InterceptAccept/InterceptSecured "
+                "dial rounds. NOT simulated: the WebTransport / WebRTC / websocket listeners' own InterceptAccept/InterceptSecured "
                 "call sites (their address forms reach the real gater in the hooks-direct stratum only), relayed connections, "
+                "hole punching; QUIC dial attempts are recognised on the wire by the harness's own parse of the QUIC long header "
+                "(RFC 8999/9000 connection-id rule); "
                 "an inbound TCP remote in /ip6/::ffff: form (Go's net.TCPAddr cannot produce it)"),
     technique=("deterministic simulation with fault injection: generated rule histories x crash/IO-fault points x restarts against "
                "an acknowledged-set reference model; full stack (swarm, gated listener, upgrader, Noise|TLS, yamux) on simnet, "
                "lock-level scheduling; direct hook sweep over address forms"),
     design_ref="DESIGN.md section 6 (C10)",
     quick_s=50, thorough_s=600,
-    rule=("one run = one tape: stratum full-stack (3/4) | hooks-direct (1/4); full-stack: link whole|fragmented, security "
+    rule=("one run = one tape: stratum hooks-direct (1/7) | full-stack over TCP (3/7) | full-stack with QUIC (3/7: per dial "
+          "QUIC-only | both | TCP-only address knowledge 3:3:1, subset of the QUIC address forms, UDP faults in 2/5 of the runs: "
+          "loss 0|3|12|30 %, duplication 0|5 %, latencies none|<=15 ms|<=400 ms, stopped before the final round); full-stack: link whole|fragmented, security "
           "noise|tls, host IPs of P and Q and two decoy IPs from a 20-address pool on the subnet edges, 3-10 steps of dial round "
           "(subset of G->P, P->G, G->Q, Q->G run concurrently, each triggered by Swarm.DialPeer | Swarm.NewStream; per outbound dial a subset of the address forms, optional decoy) | "
           "Block/Unblock call (fault: none | process stop after the datastore mutation | I/O error) | clean restart, and a final "
@@ -34,7 +41,11 @@ SPEC = dict(
           "the three load queries first. non-trivial = at least one Block was acknowledged and at least one oracle evaluation "
           "with a definite expectation followed; distinct = distinct (stratum, security, hosts, sequence of calls with outcomes, "
           "rounds with dial results and connection counts) x schedule hash"),
-    probes=["stratum-full-stack", "stratum-hooks-direct", "security-noise", "security-tls",
+    probes=["stratum-full-stack", "stratum-hooks-direct", "stratum-full-stack-quic", "G-knows-quic-only", "G-knows-tcp+quic",
+            "G-knows-tcp-only", "remote-knows-quic-only", "remote-knows-tcp+quic", "remote-knows-tcp-only",
+            "quic-conn-admitted-inbound", "quic-conn-admitted-outbound", "quic-Secured-inbound", "quic-Secured-outbound",
+            "refused-Accept-quic", "refused-Secured-inbound-quic", "refused-AddrDial-quic", "quic-dial-attempt-seen",
+            "udp-faults-on", "udp-faults-stopped-before-final-round", "not-connected-under-udp-faults", "security-noise", "security-tls",
             "refused-PeerDial", "refused-AddrDial", "refused-AddrDial-ip4", "refused-AddrDial-ip6", "refused-AddrDial-ip6-mapped",
             "refused-Accept", "refused-Secured-inbound", "inbound-from-blocked-addr", "inbound-from-blocked-subnet",
             "inbound-from-blocked-peer", "round-with-blocked-remote", "connected-after-unblock", "survivor-conn-while-blocked",
@@ -52,11 +63,14 @@ SPEC = dict(
           "p2p/net/conngater BasicConnectionGater (Block*/Unblock*/List*/loadRules/Intercept*) on go-datastore namespace + query code",
           "swarm (dialPeer, addrsForDial incl. DNS resolution step, filterKnownUndialables, dial worker, addConn, notifications)",
           "tcp transport dial path (WithDialerForAddr)", "upgrader + gated listener (InterceptAccept, InterceptSecured call sites)",
-          "noise, tls", "multistream-select", "yamux", "pstoremem", "eventbus"],
-    stubs=["wire: simnet TCP model", "disk: simdisk wrapper around MapDatastore (process stop after a mutation, I/O error on an operation)",
+          "noise, tls", "multistream-select", "yamux", "pstoremem", "eventbus",
+          "p2p/transport/quic (listener.Accept gating, transport.dial gating), quicreuse, quic-go (stratum full-stack-quic)"],
+    stubs=["wire: simnet TCP model", "wire: simnet UDP model (drawn loss / duplication / latency per datagram) + a recording filter that spots G's client Initial packets",
+           "crypto/rand: simrand (seeded) in the QUIC stratum", "disk: simdisk wrapper around MapDatastore (process stop after a mutation, I/O error on an operation)",
            "DNS: fake MultiaddrDNSResolver mapping p.test/q.test to the hosts' IPs (dns6 of an IPv4 host yields the IPv4-mapped form)",
            "a delegating recorder around the real gater (counts refusals, compares each live answer with the model)",
            "null resource manager; no basic host / identify on the nodes"],
     assume=["virtual clock of testing/synctest", "5 virtual seconds after the dials returned exceed every dial-ranking delay on these paths",
-            "a rule change happens only while no dial or accept is in flight (quiescence), so 'admitted after the rule took force' is decidable per round"],
+            "a rule change happens only at a quiescent instant; an inbound connection's chain gating hooks -> addConn -> notification takes no virtual time, so a notification is judged by the rules in force when it arrives",
+            "45 virtual seconds with everything closed on both sides exceed QUIC's idle timeout (30 s) — no half-dead connection survives into the final round"],
 )
